@@ -72,6 +72,39 @@ Cmp(op, a, b) ==
        ELSE IF up THEN (IF strict THEN TextLt(tb, ta) ELSE TextLe(tb, ta))
             ELSE (IF ltStrict THEN TextLt(ta, tb) ELSE TextLe(ta, tb))
 
+\* between / inside (strict), from_to / range (inclusive), beyond / outside: numbers first, then text; bounds in either order
+Between(op, me, a, b) ==
+  LET numeric == NumLike(me) /\ NumLike(a) /\ NumLike(b)
+      lt(x, y) == IF numeric THEN NumOf(x) < NumOf(y) ELSE TextLt(Strip(StrOf(x)), Strip(StrOf(y)))
+      hi == IF lt(b, a) THEN a ELSE b
+      lo == IF lt(b, a) THEN b ELSE a
+  IN IF me.t = "none" \/ a.t = "none" \/ b.t = "none" THEN FALSE
+     ELSE IF op \in {"between", "inside"} THEN lt(me, hi) /\ lt(lo, me)
+     ELSE IF op \in {"from_to", "range"} THEN ~lt(hi, me) /\ ~lt(me, lo)
+     ELSE (lt(hi, me) /\ lt(lo, me)) \/ (lt(me, hi) /\ lt(me, lo))
+
+\* in(x, a, b, ...): terms are |-delimited lists of stripped strings; other values are taken as they are
+RECURSIVE SplitPipe(_, _)
+SplitPipe(s, acc) ==
+  IF s = <<>> THEN <<VStr(Strip(acc))>>
+  ELSE IF Head(s) = 124 THEN <<VStr(Strip(acc))>> \o SplitPipe(Tail(s), <<>>)
+  ELSE SplitPipe(Tail(s), Append(acc, Head(s)))
+RECURSIVE InValues(_, _)
+InValues(args, rs) ==
+  IF args = <<>> THEN <<>>
+  ELSE (IF Head(args).k = "term" THEN SplitPipe(Strip(StrOf(Head(rs).val)), <<>>)
+        ELSE IF Head(rs).val.t = "list" THEN Head(rs).val.items
+        ELSE <<Head(rs).val>>) \o InValues(Tail(args), Tail(rs))
+
+\* equals(a, b): exactly one falsy => False; both numbers => numeric; else the string forms
+EqualsFn(l, r) ==
+  IF Truthy(l) # Truthy(r) THEN FALSE
+  ELSE IF l.t = "none" /\ r.t = "none" THEN TRUE
+  ELSE IF NumLike(l) /\ NumLike(r) THEN NumOf(l) = NumOf(r)
+  ELSE StrOf(l) = StrOf(r)
+
+NonBlankCell(c) == Strip(c) # <<>>
+
 RECURSIVE SumNums(_)
 SumNums(rs) == IF rs = <<>> THEN 0 ELSE (IF IsNone(Head(rs).val) THEN 0 ELSE NumOf(Head(rs).val)) + SumNums(Tail(rs))
 RECURSIVE SubNums(_, _)
@@ -146,6 +179,23 @@ EvFn(node, st0, ctx) ==
     [] nm = "empty"  -> LET b == \A j \in 1..N : IsEmpty(A(j)) IN R(VBool(b), b, st)
     [] nm \in {"above", "gt", "after", "below", "lt", "before", "gte", "lte"}
                      -> LET b == Cmp(nm, A(1), A(2)) IN R(VBool(b), b, st)
+    [] nm \in {"between", "inside", "from_to", "range", "beyond", "outside"}
+                     -> LET b == Between(nm, A(1), A(2), A(3)) IN R(VBool(b), b, st)
+    [] nm = "in"     -> LET b == ListHas(InValues(Tail(node.args), Tail(rs)), A(1)) IN R(VBool(b), b, st)
+    [] nm \in {"equals", "eq"} -> LET b == EqualsFn(A(1), A(2)) IN R(VBool(b), b, st)
+    [] nm = "any"    -> LET b == (\E j \in 1..Len(ctx.line) : NonBlankCell(ctx.line[j]))
+                                 \/ (\E j \in 1..Len(st.vars) : ~IsNone(st.vars[j].v))
+                        IN R(VBool(b), b, st)
+    [] nm \in {"all", "missing"} ->
+          LET ok == IF N = 0 THEN Len(ctx.line) = Len(ctx.headers) /\ \A j \in 1..Len(ctx.line) : NonBlankCell(ctx.line[j])
+                    ELSE \A j \in 1..N : ~(A(j).t = "none" \/ (A(j).t = "str" /\ Strip(A(j).s) = <<>>))
+              b == IF nm = "missing" THEN ~ok ELSE ok
+          IN R(VBool(b), b, st)
+    [] nm = "strip"  -> R(VStr(Strip(StrOf(A(1)))), D, st)
+    [] nm = "mod"    -> R(VFloat(NumOf(A(1)) % NumOf(A(2))), D, st)
+    [] nm = "int"    -> R(IF A(1).t = "none" THEN None ELSE VInt(NumOf(A(1))), D, st)
+    [] nm = "firstscan" -> R(VBool(st.scanCount = 1), st.scanCount = 1, st)
+    [] nm = "firstline" -> R(VBool(ctx.k = 0), ctx.k = 0, st)
     [] nm = "concat" -> R(VStr(Strip(Concat(rs))), D, st)
     [] nm = "length" -> LET n == IF Truthy(A(1)) THEN Len(StrOf(A(1))) ELSE 0 IN R(VInt(n), n > 0, st)
     [] nm = "lower"  -> R(VStr(Strip(Lower(StrOf(A(1))))), D, st)
